@@ -41,7 +41,7 @@ def run_session(cfg, ctx, nreq, fp=True):
     letters = letters_for(tr)
     peer = WatchPeer(tr, T, ctx, letters, ['ok'])
     peer.max_open = 0
-    if tr == 'udp':
+    if tr == 'udp' and cfg.get('udp_connect', True):
         peer.udp_conn_letters = ['ok', 'netunreach']
     kern = Kernel(peer, ctx=ctx)
     loop = KLoop(kern=kern)
@@ -334,7 +334,8 @@ def explore_sessions(tier, seed, props, light=False):
         # one level deeper for two requests (a fourth-round finding needed it): 3 deviations
         for tr in ('udp', 'tcp'):
             for ka in (False, True):
-                jobs.append((dict(transport=tr, ka=ka, T=1, R=1), 2, 3, props))
+                # (datagram connect outcomes stay a choice point in the 2-deviation jobs above; here they are fixed to 'ok')
+                jobs.append((dict(transport=tr, ka=ka, T=1, R=1, udp_connect=False), 2, 3, props))
     # split the larger jobs by the answer to the very first transmission (the subtrees are independent executions)
     split = []
     for j in jobs:
